@@ -23,6 +23,13 @@ def storeAfter (A : Option Assets) (m : Memo) : Option Assets :=
   | some As, some (.committed vs) => some { As with prev := vs.map undump }
   | A, _ => A
 
+/-- `State.commit(states)` called from outside the table: a list of the right length replaces the generation, any other
+is refused (`assert len(states) == len(self._nodes)`) and the accessor keeps its generation -/
+def commitExternal (As : Assets) (vs : List Val) : Assets :=
+  match As.commit vs with
+  | .committed vs => { As with prev := vs.map undump }
+  | _ => As
+
 /-- store before the `j`-th execution (0-based) of table `t` starting from `A` -/
 def storeSeq (A : Option Assets) (t : Table) : Nat → Option Assets
   | 0 => A
